@@ -275,7 +275,8 @@ class Sim:
         answer = True
         if action == "check":
             for r in reqs:
-                r["present"] = self.state_visible(wid, r["obj"], r["state"], r["locations"], r["scope"], params)
+                r["found"] = self.state_where(wid, r["obj"], r["state"], r["locations"], r["scope"], params)
+                r["present"] = r["found"] is not None
                 answer = answer and r["present"]
         elif action == "unset":
             for r in reqs:
@@ -347,15 +348,20 @@ class Sim:
             self.log("world.populated", pool=pool, obj=item[0], state=item[1])
         return present
 
-    def state_visible(self, wid, obj, state, locations, scope, params):
+    def state_where(self, wid, obj, state, locations, scope, params):
+        """Where a worker sees a state: "own", the first permitted listed location, or None."""
         scopes = scope.split()
+        found = None
         if "own" in scopes and self.world.has(wid, (obj, state)):
-            return True
+            found = "own"
         for loc in locations.split():
             cls = self.location_class(wid, loc, params)
             if cls != "own" and cls in scopes and self.world.has(self.location_store(loc), (obj, state)):
-                return True
-        return False
+                found = found or loc
+        return found
+
+    def state_visible(self, wid, obj, state, locations, scope, params):
+        return self.state_where(wid, obj, state, locations, scope, params) is not None
 
     def fetch(self, wid, obj, state, locations, scope, params):
         """Copy a state into the worker's own pool from a permitted location (any listed)."""
@@ -370,9 +376,13 @@ class Sim:
         return None
 
     # -- execution -----------------------------------------------------------------------
-    def duration(self, cls, wid, k):
-        palette = DURATION_PALETTES[self.families.get("durations", "ties")]
+    def duration(self, cls, wid, k, creation=False):
+        name = self.families.get("durations", "ties")
+        palette = DURATION_PALETTES[name]
         d = self.plan.pick(f"dur/{self.epoch}/{short_key(cls)}/{wid}/{k}", palette, default=palette[0])
+        if creation and name == "long":
+            # the two steps of an object creation count as one execution: keep their sum within the timeout
+            d = d / 2.5
         slow = self.families.get("slow_worker")
         if slow and slow.get("worker") == wid:
             d = d * slow.get("factor", 1)
@@ -454,7 +464,7 @@ async def fake_run_test_task(runner, node):
                  object_root=params.get("object_root"),
                  dry_run=params.get("dry_run", "no"),
                  unknown_placeholder="UNKNOWN" in [r["status"] for r in node.results])
-    duration = sim.duration(cls, wid, k)
+    duration = sim.duration(cls, wid, k, creation=bool(params.get("object_root")))
     sim.running[serial] = ev
     try:
         await asyncio.sleep(duration)
